@@ -553,4 +553,111 @@ func TestC16(t *testing.T) {
 	defer r.End()
 	core.DFS(r, core.Check[fnCase]{Name: "all-small-operands", Gen: genFnExhaustive, Exec: execFnCase, NoJournal: true}, 0)
 	core.Rapid(r, core.Check[fnCase]{Name: "random-operands", Gen: genFnRandom, Exec: execFnCase}, r.N(2000, 10000))
+	core.DFS(r, core.Check[keyIdentityCase]{Name: "key-identity", Gen: genKeyIdentity, Exec: execKeyIdentity, NoJournal: true}, 0)
+}
+
+// ---------------------------------------------------------------- keys that are equal for the collator but not for the catalog
+
+// A catalog tells its keys apart with Go's ==: two pointers to equal numbers, an int and an int64 of the same
+// value, are different keys, although the collator ranks them as equal.  Merge and Extract must use the
+// catalog's notion: a requested key that only *looks* like a present one is absent.
+type keyIdentityCase struct {
+	Keys    string `json:"keys"` // pointers | mixed
+	Fn      string `json:"fn"`   // Extract Merge
+	Present []int  `json:"present"`
+	Other   []int  `json:"other"` // requested keys (Extract) or the keys of the second catalog (Merge)
+}
+
+var mixedKeys = []any{int(1), int64(1), int8(1), uint(1), 1.0, "1", int(2), int64(2)}
+
+func execKeyIdentity(c keyIdentityCase, _ core.Source) core.Result {
+	if c.Keys == "pointers" {
+		return keyIdentity(c, ptrKeys, func(k *int) string { return fmt.Sprintf("&%d@%p", *k, k) })
+	}
+	return keyIdentity(c, mixedKeys, func(k any) string { return fmt.Sprintf("%T(%v)", k, k) })
+}
+
+func keyIdentity[K comparable](c keyIdentityCase, pool []K, show func(K) string) (res core.Result) {
+	n := lib.Notation()
+	C := col.Catalog[K, int](n)
+	a := C.Make()
+	type pr struct {
+		k K
+		v int
+	}
+	var want []pr
+	for _, i := range c.Present {
+		a.SetValue(pool[i], 100+i)
+		want = append(want, pr{pool[i], 100 + i})
+	}
+	var got col.CatalogLike[K, int]
+	desc := ""
+	if c.Fn == "Extract" {
+		var req []K
+		var out []pr
+		for _, i := range c.Other {
+			req = append(req, pool[i])
+			for _, w := range want {
+				dup := false
+				for _, o := range out {
+					dup = dup || o.k == pool[i]
+				}
+				if w.k == pool[i] && !dup {
+					out = append(out, w)
+				}
+			}
+		}
+		want = out
+		desc = fmt.Sprintf("Extract(catalog with the keys %v, requested %v)", c.Present, c.Other)
+		got = C.Extract(a, col.List[K](n).MakeFromArray(req))
+	} else {
+		b := C.Make()
+		for _, i := range c.Other {
+			b.SetValue(pool[i], 200+i)
+			hit := false
+			for j := range want {
+				if want[j].k == pool[i] {
+					want[j].v, hit = 200+i, true
+				}
+			}
+			if !hit {
+				want = append(want, pr{pool[i], 200 + i})
+			}
+		}
+		desc = fmt.Sprintf("Merge(catalog with the keys %v, catalog with the keys %v)", c.Present, c.Other)
+		got = C.Merge(a, b)
+	}
+	arr := got.AsArray()
+	ok := len(arr) == len(want)
+	for i := 0; ok && i < len(arr); i++ {
+		ok = arr[i].GetKey() == want[i].k && arr[i].GetValue() == want[i].v
+	}
+	if !ok {
+		gs, ws := []string{}, []string{}
+		for _, x := range arr {
+			gs = append(gs, fmt.Sprintf("%s:%d", show(x.GetKey()), x.GetValue()))
+		}
+		for _, w := range want {
+			ws = append(ws, fmt.Sprintf("%s:%d", show(w.k), w.v))
+		}
+		res.Violation = core.Violate("C16/"+c.Fn+"/key-identity/"+c.Keys, "%s over keys that the collator cannot tell apart = %v, expected %v", desc, gs, ws)
+		return
+	}
+	res.NonTrivial = len(c.Present) > 0 && len(c.Other) > 0
+	res.Classes = append(res.Classes, "fn-"+c.Fn, "keys-"+c.Keys)
+	return
+}
+
+func genKeyIdentity(s core.Source) keyIdentityCase {
+	c := keyIdentityCase{Keys: core.Pick(s, []string{"pointers", "mixed"}, "keys"), Fn: core.Pick(s, []string{"Extract", "Merge"}, "fn")}
+	c.Present = enumOrderedSubset(s, 4, "present")
+	if c.Fn == "Extract" {
+		c.Other = enumList(s, 6, 3, "requested")
+	} else {
+		c.Other = enumOrderedSubset(s, 4, "second")
+		for i := range c.Other {
+			c.Other[i] = (c.Other[i] + 2) % 8 // overlaps the first catalog's keys in two
+		}
+	}
+	return c
 }
